@@ -14,6 +14,7 @@ import sys
 import time
 
 from . import gen, props, tool
+from .hooks import HookUndecided
 
 ROOT = gen.ROOT
 BUILD = os.path.join(ROOT, 'build')
@@ -350,7 +351,7 @@ def main(argv):
             for k, v in cov2.items():
                 ev['coverage'][k] = v
         failures = failures + extra_fail
-    except Undecided as u:
+    except (Undecided, HookUndecided) as u:
         ev['wall_s'] = round(time.time() - t0, 2)
         ev['coverage']['explanation'] = 'UNDECIDED (machinery): ' + str(u)[:2000]
         ev['level'] = 'other'
